@@ -34,7 +34,7 @@ LEVEL_TEXT = ('Each generated program is built through every route and the resul
               'attribute and by full-state snapshots after evaluation and solution on identical data.')
 LEVEL_NOTE = 'Trusted: CPython exec; the snapshot function. Not covered: converters that are not pure functions of the symbol.'
 
-CONVERTERS = ['default', 'identity', 'wrap-if', 'comment-prefix', 'try-guard']
+CONVERTERS = ['default', 'identity', 'wrap-if', 'comment-prefix', 'try-guard', 'assert-guard', 'debug-guard']
 
 
 def make_converter(kind, log):
@@ -50,6 +50,10 @@ def make_converter(kind, log):
             return 'if True:\n' + textwrap.indent(code, '    ')
         if kind == 'comment-prefix':
             return '# converted: ' + ' '.join((symbol.equation or '').split())[:40].replace('`', '') + '\n' + code
+        if kind == 'assert-guard':
+            return 'assert t < 0, "guard"\n' + code
+        if kind == 'debug-guard':
+            return 'if __debug__:\n    t = t\nelse:\n    raise RuntimeError("optimised")\n' + code
         if kind == 'try-guard':
             return 'try:\n' + textwrap.indent(code, '    ') + '\nexcept ZeroDivisionError:\n    pass'
         raise ValueError(kind)
@@ -194,7 +198,9 @@ def strategy():
         G.programs(max_statements=4, blocks=True, named_periods=False, big_offsets=False),
         G.programs(max_statements=3, blocks=True, named_periods=False, big_offsets=False),
         st.just([]),
-        st.sampled_from([[['block', 'pass']], [['block', 'x = 1\ny = x + 1']], [['block', 'pass'], ['block', 'pass']]]),
+        st.sampled_from([[['block', 'pass']], [['block', 'x = 1\ny = x + 1']], [['block', 'pass'], ['block', 'pass']],
+                         [['block', 'assert t < 0, "never"']], [['block', 'if __debug__:\n    raise KeyError(t)']],
+                         [['block', 'x = 1'], ['block', 'x = 1']]]),
     )
     return st.fixed_dictionaries({
         'prog': progs,
